@@ -250,3 +250,48 @@ Definition b_add (inputs : list addarg) := batch (fun x => show_res show_qatom (
 Definition b_copy (inputs : list string) :=
   batch (fun s => show_res (fun x => show_qfull x ++ " " ++ show_qfull (qcopy false x) ++ " " ++ show_qfull (qcopy true x) ++ " " ++
                                     show_qfull (qcopy false (qcopy true x))) (smarts_qfull (s2l s))) inputs.
+
+(* ---- intermediate state of smarts(): the record parser(smarts_tokenize(text), False) returns - bonds in the order found,
+   stereo_atoms, stereo_bonds (insertion order) - in the text form of Model.Parser.show_parsed without the atom dictionaries *)
+Definition smarts_parse (s : string) : pyres Parser.parsed :=
+  match tokenize_raw s with
+  | Err e => Err e
+  | Ok ts => match split_tokens ts with
+             | Err e => Err e
+             | Ok (toks, _) => Parser.parse toks false
+             end
+  end.
+Definition show_parse_state (p : Parser.parsed) : string :=
+  Parser.show_list (fun t => let '(a, b, c) := t in "(" ++ show_z a ++ "." ++ show_z b ++ "." ++ show_payload c ++ ")") (Parser.p_bonds p) ++ ";" ++
+  Parser.show_list (fun kv => show_z (fst kv) ++ ":" ++ show_bool (snd kv)) (Parser.p_stereo_atoms p) ++ ";" ++
+  Parser.show_list (fun kv => show_z (fst kv) ++ ":{" ++ String.concat "." (map (fun mv => show_z (fst mv) ++ ":" ++ show_bool (snd mv)) (snd kv)) ++ "}")
+                   (Parser.p_stereo_bonds p) ++ ";" ++ show_z (Z.of_nat (List.length (Parser.p_atoms p))).
+Definition b_parse_state (inputs : list string) := batch (fun s => show_res show_parse_state (smarts_parse s)) inputs.
+
+(* ---- atom numbers.  mapping[i] = parsed_mapping or next(global_free_masked if masked else free), where
+   free = count(max(parsed_mapping of all atoms, default 0) + 1) and global_free_masked is a process-wide counter that starts at
+   10^9 + 1: a masked atom is given by its rank among the masked atoms of this call *)
+Inductive anum := NGiven (k : Z) | NMasked (j : Z).
+Definition explicit_of (ps : list Query.parsed) : list Z :=
+  flat_map (fun p => match p_mapping p with Some k => [k] | None => [] end) ps.
+Fixpoint assign_numbers (ps : list Query.parsed) (free masked : Z) : list anum :=
+  match ps with
+  | [] => []
+  | p :: r => match p_mapping p with
+              | Some k => NGiven k :: assign_numbers r free masked
+              | None => if p_masked p then NMasked masked :: assign_numbers r free (masked + 1)
+                        else NGiven free :: assign_numbers r (free + 1) masked
+              end
+  end.
+Definition max_explicit (ps : list Query.parsed) : Z := fold_left Z.max (explicit_of ps) 0.
+Definition atom_numbers (ps : list Query.parsed) : list anum := assign_numbers ps (max_explicit ps + 1) 0.
+Definition num_value (g0 : Z) (a : anum) : Z := match a with NGiven k => k | NMasked j => g0 + j end.
+(* the numbers smarts() gives to the atoms of a text (Ok when the text is tokenized and parsed) *)
+Definition smarts_numbers (s : string) : pyres (list anum) :=
+  match tokenize_raw s with
+  | Err e => Err e
+  | Ok ts => match split_tokens ts with Err e => Err e | Ok (_, ps) => Ok (atom_numbers ps) end
+  end.
+Definition show_anum (a : anum) : string := match a with NGiven k => show_z k | NMasked j => "m" ++ show_z j end.
+Definition b_numbers (inputs : list string) :=
+  batch (fun s => show_res (fun l => String.concat "," (map show_anum l)) (match smarts_full s with Ok _ => smarts_numbers s | Err e => Err e end)) inputs.
